@@ -1,6 +1,7 @@
 """C19 — conditional-independence tests compute the statistic they document."""
 from __future__ import annotations
 
+import itertools
 import math
 from fractions import Fraction
 
@@ -195,6 +196,23 @@ def run_pd(case, drv):
         return fail(f"p-value {p}, expected {exp_p} for statistic {exp_stat} with {dof} degrees of freedom", **tags)
     if bool(verdict) != (exp_p >= case["alpha"]) and abs(exp_p - case["alpha"]) > 1e-9:
         return fail(f"boolean verdict {verdict} but p-value {exp_p} and significance level {case['alpha']}", **tags)
+    # the verdict is "p-value >= significance level" at EVERY level: very small levels (multiple-testing corrections) and levels
+    # right next to the p-value included
+    levels = [1e-9, 1e-12, 1e-300, 0.999999]
+    if 0 < p < 1:
+        levels += [p * (1 + 1e-6), p * (1 - 1e-6), p * (1 + 1e-3), p * (1 - 1e-3)]
+    for a_ in levels:
+        if abs(exp_p - a_) <= 1e-9 * max(a_, 1e-300) or not (0 < a_ < 1):
+            continue
+        if abs(exp_p - p) > 1e-12 and (exp_p >= a_) != (p >= a_):
+            continue                    # reference and implementation p-value straddle the level: not judged
+        try:
+            with np.errstate(all="ignore"):
+                v_ = call_test(dict(case, alpha=a_), df, "X", "Y", Z, boolean=True)
+        except Exception as e:
+            return fail(f"{case['lam']} with significance_level={a_} raised {type(e).__name__}: {e}", **tags)
+        if bool(v_) != (p >= a_):
+            return fail(f"boolean verdict {v_} at significance level {a_!r}, p-value {p!r}: the verdict is p >= level", **tags)
     if case["independent"]:
         if abs(chi) > 1e-9 or abs(p - 1) > 1e-9:
             return fail(f"exactly independent tables give statistic {chi}, p {p}", **tags)
@@ -287,6 +305,16 @@ def run_pr(case, drv):
         c1, p1 = pearsonr("X", "Y", cols[2:], df2, boolean=False)
     except Exception as e:
         return fail(f"pearsonr raised {type(e).__name__}: {e}", **tags)
+    # verdicts: independent <=> p-value >= significance level, at every level
+    for a_ in [0.05, 1e-9, 1e-12] + ([p0 * (1 + 1e-6), p0 * (1 - 1e-6)] if 0 < p0 < 1 else []):
+        if not (0 < a_ < 1):
+            continue
+        try:
+            v_ = pearsonr("X", "Y", cols[2:], df, boolean=True, significance_level=a_)
+        except Exception as e:
+            return fail(f"pearsonr(boolean=True, significance_level={a_}) raised {type(e).__name__}: {e}", **tags)
+        if bool(v_) != (p0 >= a_):
+            return fail({"msg": f"pearsonr verdict {v_} at significance level {a_!r}, p-value {p0!r}", "kind": "verdict"}, **tags)
     rc, rp = ref_partial(case["data"], nz)
     if case.get("ones") and nz >= 1:
         # the conditioning set contains an explicit column of ones: the regression then HAS an intercept, whatever the library adds
@@ -323,9 +351,86 @@ def run_pr(case, drv):
     return ok(nontrivial=nz > 0, **tags)
 
 
+# ----------------------------------------------------------------------------- the tests as PC uses them
+def gen_pcuse(rng, tier):
+    n = rng.randint(3, 4)
+    N = rng.randint(40, 160)
+    rows = []
+    for _ in range(N):
+        r = [rng.randrange(2)]
+        for v in range(1, n):
+            src = r[rng.randrange(v)]
+            r.append(src if rng.random() < .75 else rng.randrange(3 if v == n - 1 else 2))
+        rows.append(r)
+    # a sparse corner: one rare combination, where the members of the power-divergence family disagree most
+    rows += [[1] + [0] * (n - 2) + [2]] * rng.randint(0, 2)
+    return {"n": n, "rows": rows, "lam": rng.choice(["pearson", "log-likelihood", "neyman", "mod-log-likelihood", "freeman-tukey", "cressie-read", -2, 0.0]),
+            "alpha": rng.choice([0.01, 0.05, 0.001]), "variant": rng.choice(["orig", "stable", "parallel", "parallel"])}
+
+
+def run_pcuse(case, drv):
+    """PC hands the caller's test parameters (lambda_, significance_level) to the test in EVERY variant: the skeleton it builds is
+    the one obtained by running the PC-stable / orig loops by hand with pgmpy's own power_divergence verdicts (which the
+    power_divergence stream ties to the documented statistic)"""
+    import numpy as np
+    import pandas as pd
+    from pgmpy.estimators import PC
+    from pgmpy.estimators.CITests import power_divergence
+    n = case["n"]
+    names = ["V%d" % i for i in range(n)]
+    df = pd.DataFrame(case["rows"], columns=names)
+    lam, alpha, variant = case["lam"], case["alpha"], case["variant"]
+    tags = dict(variant=variant, lam=str(lam))
+
+    def indep(x, y, z):
+        with np.errstate(all="ignore"):
+            return bool(power_divergence(x, y, list(z), df, boolean=True, lambda_=lam, significance_level=alpha))
+    try:
+        # reference loops (Colombo & Maathuis): level-wise; `orig` removes edges at once, stable / parallel work on a snapshot of the adjacencies
+        adj = {a: set(names) - {a} for a in names}
+        lvl = 0
+        while any(len(adj[a]) - 1 >= lvl for a in names):
+            snap = {a: set(adj[a]) for a in names}
+            for a in names:
+                for b in sorted(snap[a] if variant != "orig" else list(adj[a])):
+                    if b not in adj[a]:
+                        continue
+                    pool = (snap[a] if variant != "orig" else adj[a]) - {b}
+                    for z in itertools.combinations(sorted(pool), lvl):
+                        if indep(a, b, z):
+                            adj[a].discard(b)
+                            adj[b].discard(a)
+                            break
+            lvl += 1
+            if lvl > n:
+                break
+    except Exception as e:
+        return skip(f"reference run: {type(e).__name__}: {e}")
+    ref = {frozenset((a, b)) for a in names for b in adj[a]}
+    try:
+        with np.errstate(all="ignore"):
+            skel, _ = PC(df).estimate(variant=variant, ci_test="power_divergence", lambda_=lam, significance_level=alpha,
+                                      return_type="skeleton", show_progress=False, n_jobs=1, max_cond_vars=n)
+    except Exception as e:
+        return fail(f"PC(variant={variant}, power_divergence, lambda_={lam!r}) raised {type(e).__name__}: {e}", **tags)
+    got = {frozenset(e) for e in skel.edges()}
+    if got != ref and variant != "orig":
+        return fail(f"PC(variant={variant}, ci_test=power_divergence, lambda_={lam!r}, significance_level={alpha}) skeleton "
+                    f"{sorted(map(sorted, got))}; the level-wise loop with power_divergence(lambda_={lam!r}) verdicts gives {sorted(map(sorted, ref))}", **tags)
+    if variant == "orig":
+        # the orig variant is order-dependent: only demand that every removed edge has an independence verdict and every kept edge has none
+        # at the levels PC looked at - checked through the stable reference on the other variants; here: a kept edge is dependent marginally
+        for e in got:
+            a, b = sorted(e)
+            if indep(a, b, ()):
+                return fail(f"PC(orig, lambda_={lam!r}) keeps {a}-{b} although power_divergence(lambda_={lam!r}) calls them marginally independent", **tags)
+    return ok(nontrivial=True, **tags)
+
+
 STREAMS = [
     Stream("power_divergence", gen_pd, run_pd, quick=900, thorough=9000),
     Stream("independent", gen_indep, run_pd, quick=200, thorough=2000),
     Stream("degenerate", gen_degenerate, run_pd, quick=120, thorough=1200),
     Stream("pearsonr", gen_pr, run_pr, quick=300, thorough=3000),
+    Stream("pc_usage", gen_pcuse, run_pcuse, quick=150, thorough=1500),
 ]
